@@ -78,6 +78,8 @@ type RunState struct {
 	Yield       func(steps int64) // optional scheduling noise (C16)
 	Tasks       map[*plrt.Task]int
 	StepsAtFire int64
+	// GraceAfterFire: step allowance after the first true answer (0 = none).
+	GraceAfterFire int64
 }
 
 // ExitSignal implements runtime.Signal and runtimev2.Signal.
@@ -93,6 +95,11 @@ func (rs *RunState) ExitSignal() bool {
 	if fire && rs.FiredPoll == 0 {
 		rs.FiredPoll = rs.Polls
 		rs.FiredStep = rs.Steps
+		if rs.GraceAfterFire > 0 {
+			// bounded progress in virtual time: the run must end within
+			// GraceAfterFire steps of the first poll that answered true
+			rs.Budget = rs.Steps + rs.GraceAfterFire
+		}
 	}
 	return fire
 }
